@@ -1030,6 +1030,18 @@ impl BytecodeVM {
 
         match func {
             JsFunction::Bytecode(bc_func) => {
+                // A class constructor is only ever entered through `new` or `super(...)`
+                if !is_super_call
+                    && bc_func
+                        .chunk
+                        .function_info
+                        .as_ref()
+                        .is_some_and(|info| info.is_class_constructor)
+                {
+                    return Err(JsError::type_error(
+                        "Class constructor cannot be invoked without 'new'",
+                    ));
+                }
                 // This is what we want to trampoline!
                 self.push_trampoline_frame_and_call_bytecode(
                     interp,
